@@ -212,18 +212,20 @@ def gen_world_case(rng, max_tx=7, p_intronic=0.3, cluster_p=0.0, nrec=(1, 1, 2, 
 
 NOCUT = 'ADEFGHNQSTVWYLIC'
 
-def gen_paralog_case(rng):
+def gen_paralog_case(rng, short=False):
     """World with paralogous coding genes: gene B's protein is gene A's protein with one residue replaced, and the
     GVF holds exactly the SNV of A that produces that residue, so A's variant peptides across that residue are
     canonical peptides of ANOTHER protein (B) and must be filtered whatever the reference form.  Proteins are made
     of tryptic peptides of 6-38 residues (so some exceed the default --max-length 25); a second, ordinary SNV
     elsewhere and a third gene give peptides that must be reported."""
-    def protein():
+    def protein(force5=False):
         p = 'M'
-        for _ in range(rng.randint(4, 7)):
-            p += ''.join(rng.choice(NOCUT) for _ in range(rng.choice([5, 8, 12, 20, 26, 28, 31, 37]))) + rng.choice('KR')
+        n = rng.randint(4, 7)
+        at = rng.randrange(1, n) if force5 else -1          # a 6-residue tryptic peptide, not the first one
+        for i_ in range(n):
+            p += ''.join(rng.choice(NOCUT) for _ in range(5 if i_ == at else rng.choice([5, 8, 12, 20, 26, 28, 31, 37]))) + rng.choice('KR')
         return p + ''.join(rng.choice(NOCUT) for _ in range(rng.randint(6, 12)))
-    protA = protein()
+    protA = protein(force5=short)
     dnaA = G.backtranslate(rng, protA)
     # residue to replace: inside a long peptide if there is one; a codon with a single-base neighbour coding
     # another NOCUT residue
@@ -244,7 +246,11 @@ def gen_paralog_case(rng):
             spans[x] = len(seg)
         a0 += len(seg)
     long_c = [c_ for c_ in cands if spans.get(c_[0], 0) >= 26]
-    k, j, b, aa = rng.choice(long_c if long_c and rng.random() < 0.75 else cands)
+    short_c = [c_ for c_ in cands if spans.get(c_[0], 0) == 6]
+    if short and short_c:       # the paralog peptide is a 6-mer: inside the length window only with --min-length <= 6
+        k, j, b, aa = rng.choice(short_c)
+    else:
+        k, j, b, aa = rng.choice(long_c if long_c and rng.random() < 0.75 else cands)
     dnaB = dnaA[:3 * k + j] + b + dnaA[3 * k + j + 1:]
     protC = protein()
     world = {'chroms': {}, 'genes': []}
@@ -566,6 +572,18 @@ def cli_cases(rng, quick):
         variants.append(('alternate-split', dict(base, gvfs=alt2), '0'))
         variants.append(('alternate-split-reversed', dict(base, gvfs=list(reversed(alt2))), '0'))
         variants.append(('alternate-split-reversed+gvf-idx', dict(base, gvfs=list(reversed(alt2)), gvf_idx=True), '0'))
+        # byte layout of the same records: files WITHOUT a final line break (hand-split / concatenated files), CRLF line
+        # ends (both accepted by the unchanged tree with and without .idx); the last record of a file is the one at risk,
+        # so the reversed order is run as well
+        rev = gvf_text(list(reversed(w['records'])))
+        crlf = one[0].replace('\n', '\r\n')
+        variants.append(('no-final-newline', dict(base, gvfs=[one[0][:-1]]), '0'))
+        variants.append(('no-final-newline+gvf-idx', dict(base, gvfs=[one[0][:-1]], gvf_idx=True), '0'))
+        variants.append(('reversed-no-final-newline', dict(base, gvfs=[rev[:-1]]), '0'))
+        variants.append(('alternate-split-no-final-newline', dict(base, gvfs=[x[:-1] for x in alt2]), '0'))
+        variants.append(('alternate-split-no-final-newline+gvf-idx', dict(base, gvfs=[x[:-1] for x in alt2], gvf_idx=True), '0'))
+        variants.append(('crlf', dict(base, gvfs=[crlf]), '0'))
+        variants.append(('crlf-no-final-newline+gvf-idx', dict(base, gvfs=[crlf[:-2]], gvf_idx=True), '0'))
         variants.append(('index-dir', dict(base, gvfs=one, index_dir=True), '0'))
         variants.append(('hashseed-1', dict(base, gvfs=lays[2]), '1'))
         variants.append(('hashseed-31337', dict(base, gvfs=one), '31337'))
@@ -577,6 +595,32 @@ def cli_cases(rng, quick):
             variants.append(('threads2+gene-sorted+idx+index', comb, '7'))
             variants.append(('threads2+gene-sorted+idx+index-observed', dict(comb, kind='loop', force_skip=[]), '0'))
         groups.append((wi, w, variants))
+    # index directories that hold SEVERAL canonical pools (generateIndex with one setting + updateIndex for 1-2 more, in
+    # a generated registration order): for EACH registered setting the run with --index-dir must equal the run of the
+    # same setting on the raw files.  Paralog worlds whose paralog peptide lies inside the window of only SOME of the
+    # registered settings (a 6-mer: needs --min-length <= 6; a 27-38-mer: needs --max-length >= its length), so a run
+    # that filters against the pool of another setting writes a different peptide set.
+    for wi in range(5 if quick else 40):
+        short = (wi % 2 == 0)
+        w = gen_paralog_case(rng, short=short)
+        common = []
+        if rng.random() < 0.4:
+            common += ['--miscleavage', rng.choice([0, 1, 3])]
+        if rng.random() < 0.3:
+            common += ['--min-mw', rng.choice([300.5, 700.5])]
+        settings = [common, common + ['--min-length', rng.choice([5, 5, 6])], common + ['--max-length', rng.choice([30, 36, 40])]]
+        if rng.random() < 0.3:
+            settings.append(common + ['--min-length', 5, '--max-length', 40])
+        order = list(range(len(settings)))
+        if wi % 4 != 0 and rng.random() < 0.6:
+            rng.shuffle(order)                      # else: the default window first, as generateIndex + updateIndex gives
+        pools = [settings[i] for i in order]
+        for j, st in enumerate(settings):
+            wid = 'pools%d/%d' % (wi, j)
+            base = dict(kind='cli', wid=wid, world=w['world'], threads=1, gvf_idx=False, index_dir=False, noncanonical=False,
+                        cleavage_args=st, paralog=w.get('paralog'), gvfs=[gvf_text(w['records'])])
+            groups.append((wid, w, [('baseline', base, '0'),
+                                    ('index-dir-%d-pools' % len(pools), dict(base, index_dir=True, index_pools=pools), '0')]))
     # small separate stream with the cleavage exception ON (--cleavage-exception auto = trypsin_exception):
     # callVariant is known to be run-to-run non-deterministic there on dense inputs (finding D14), so a
     # disagreement is first re-run against itself (eval_cli)
@@ -631,6 +675,9 @@ def eval_cli(ctx, groups, variant):
             if name == 'alternate-split':
                 for k_, v_ in (c.get('reckinds') or {}).items():
                     stats['cli:records/' + k_] += v_
+            if c.get('index_pools') and c.get('paralog'):
+                L = c['paralog']['peptide_len']
+                stats['cli:multi-pool index, paralog peptide of %s' % ('<= 6 aa' if L <= 6 else '> 25 aa' if L > 25 else '7-25 aa')] += 1
             if c.get('split_blocks'):
                 stats['cli:file with non-adjacent blocks of a transcript' + ('+idx' if c.get('gvf_idx') else '')] += 1
             if c.get('index_dir') and c.get('paralog') and '--max-length' in c.get('cleavage_args', []) and c['paralog']['peptide_len'] > 25:
@@ -1040,7 +1087,7 @@ def run(ctx):
                 rule='loop cases: generated single-chromosome worlds (2-7 transcripts with SNV/INDEL records, ~30%% of the transcripts with only '
                      'intronic records = naturally skipped, forced skip subsets - exhaustive for <= 4 (quick) / 6 (thorough) transcripts - and '
                      '--noncanonical-transcripts) x threads 1..5; non-trivial = at least one transcript skipped and one dispatched. cli cases: '
-                     'per world baseline + 3 layouts + idx + index dir + 2 hash seeds + threads 2,3(,4) with the real pathos pool + combined; '
+                     'per world baseline + 3 layouts + idx + index dir + 2 hash seeds + threads 2,3(,4) with the real pathos pool + combined + files without a final line break / CRLF (with and without idx); multi-pool index directories (generateIndex + updateIndex, each registered setting vs the raw-file run of that setting); '
                      'non-trivial = baseline peptide set non-empty. distinct by (world, pattern, threads) / (world, variant). record-order cases: '
                      'lists of 2-7 VariantRecord objects crowded on one or two positions (duplicates, == with other attrs, SNV / RNAEditingSite / '
                      'INDEL / MNV / Fusion / Insertion / Deletion / Substitution): six comparison methods, hash equality, sorted() and set() of 2-4 '
